@@ -11,7 +11,19 @@ ADDED = {
  "C03": "Rounds 3-4: the binary64 formula X*scale+offset is now INSIDE the model (Model/F64Bits.v: IEEE-754 bit codec over the Gallina round-to-nearest-even "
         "binary64 of C11; ap64) and ap_ok is PROVED for it on the domain good_scaling (positive finite scale, finite offset, finite images of the int32 ends): "
         "C03_extrema_binary64 / C03_grow_app_binary64 state the extrema theorems for ap64 without the ap_ok hypothesis (refuted outside the domain by witnesses); "
-        "ap64 is compared bit for bit with numpy and with the mins/maxs LasHeader.grow/update produce on every run.",
+        "ap64 is compared bit for bit with numpy and with the mins/maxs LasHeader.grow/update produce on every run. Model/LasMulti.v: for ANY interleaving of "
+        "the operations of several writers built from ONE header object each writer ends in the state its own operations lead to (C03_interleave, "
+        "C03_ensemble); harness ensembles of 2-4 writers / appenders / LasData sharing a header object and records; every (version, format) pair with return "
+        "numbers over the whole storable range; statistics recomputed from the raw bytes.",
+ "C06": "Rounds 3-4: faulted append sessions (Proofs/FaultAppendProofs.v: C06_faulted_append - a chunk whose low-level write stored nothing is not counted and "
+        "the next write goes to the same position, so the session's file is the file of the accepted chunks); C06_append_equiv_binary64 (the theorem for the "
+        "binary64 formula ap64, no ap_ok hypothesis); oracle lasio.raw_stats_problems recomputes count, extrema bit patterns, 5/15-bin histogram, EVLR pointer "
+        "and the length equation straight from the bytes (the one-shot writer shares the header code, so equality with it is not enough); originals with "
+        "non-ASCII header strings / VLR / EVLR descriptions under strict and lenient encoding_errors; originals with unused bytes before their EVLRs.",
+ "C19": "Rounds 3-4: fault sequences beyond plain crashes (Proofs/FaultProofs.v, FaultAppendProofs.v: C19_fault_safe, C19_fault_final, "
+        "C19_fault_safe_append) - sessions in which chunk writes FAIL (nothing stored: the session goes on in any way; torn: only close/__exit__ follows): every "
+        "crash image including the final file is refused or read as a prefix of the ACCEPTED points; every read runs under a timer (non-termination is a "
+        "failing input); all truncation lengths 0 .. offset_to_point_data + 2 records and the last 2 records .. end for files WITH VLRs of every version.",
  "C04": "Rounds 3-4: Model/WriterAlias.v - the writer holds its OWN header values taken at open, the caller's world (header fields, VLR list, a heap of "
         "format objects) is edited between the operations: caller edits are irrelevant to the file, refusals leave no trace, a mutated format OBJECT is "
         "refused like a different one, an equal format VALUE is accepted, a with-block left by an exception writes the file of the accepted calls; harness: "
